@@ -415,13 +415,29 @@ func runInject(c *fw.Ctx, idx int, r *fw.Rand) {
 		}
 	}
 
+	// In half of the cases a young message is also delivered into the very mailbox whose snapshot
+	// the scanner is about to process (the window between snapshot and removal): it must survive
+	// whatever the scanner decides about the snapshot.
+	deliverHere := r.Bool()
+	detail["deliver_into_visited_mailbox"] = deliverHere
 	w := &wrapStore{Store: st}
 	if !useLevel {
-		w.onVisit = func(k int, _ []storage.Message) {
+		w.onVisit = func(k int, ms []storage.Message) {
 			for _, tr := range plan {
 				if tr.At == k {
 					exec(tr.Ops, false)
 				}
+			}
+			if deliverHere && len(ms) > 0 {
+				name := ms[0].Mailbox()
+				pm, err := addOne(st, name, msgSpec{Old: false, Delta: minDelta, Subject: fmt.Sprintf("here-%d", k)}, now, spec.Period)
+				if err != nil {
+					opErrs = append(opErrs, "deliver-here "+name+": "+err.Error())
+					return
+				}
+				executed++
+				allNames[name] = true
+				boxes[name] = append(boxes[name], &tracked{pmsg: pm, duringScan: true})
 			}
 		}
 	} else {
